@@ -78,6 +78,15 @@ def effectiveTC (cli inline : TCC) (doc cliDoc : DC) (fmt : TCC) (scrutEnv : Env
   let t := (parsed.ov cli).withEnv scrutEnv
   t.wd (doc.ov cliDoc).defaults
 
+/-- `GlobalSharedParameters::to_testcase_config` (src/bin/commands/root.rs): the layer the command line
+contributes to every test case. It is built from four flags only -- `--no-combine-output`, `--combine-output`,
+`--no-keep-output-crlf`, `--keep-output-crlf` -- the negative flag winning over the positive one; `--cram-compat`
+is not among them (it changes the FORMAT default of Markdown documents, nothing else).
+Values as everywhere in this model: `outputStream` 1 = stdout, 3 = combined; `keepCrlf` 1 = true, 2 = false. -/
+def cliLayer (noCombine combine noKeepCrlf keepCrlf : Bool) : TCC :=
+  { outputStream := if noCombine then some 1 else if combine then some 3 else none
+    keepCrlf := if noKeepCrlf then some 2 else if keepCrlf then some 1 else none }
+
 /-- the document configuration in effect: front-matter over the format default, the command
     line over both -/
 def effectiveDC (cliDoc frontMatter fmtDoc : DC) : DC :=
